@@ -73,9 +73,10 @@ class HashGlobalVarDesc:
             return self
         if instance.loaded:
             fd = instance.__dict__[self.name].fd
-            # the values of the map are 8 bytes, whatever the format is
+            # the values of the map are 8 bytes, whatever the format is,
+            # stored in native byte order by everybody who writes them
             data = lookup_elem(fd, pack("B", self.count), 8)
-            return unpack_from(self.fmt, data)[0]
+            return unpack_from(self.fmt.lstrip("<>!=@"), data)[0]
         ret = instance.__dict__.get(self.name, None)
         if ret is None:
             ret = HashGlobalVar(instance, self.count, self.fmt)
